@@ -150,3 +150,24 @@ for how in ('literal', 'macro'):
                   "result is True ==> len(emitted(_p)) == %d and instr(emitted(_p)[-1], 'OUT', IoOp.PRINTF) and emitted(_p)[-1].param1 == %r and %s"
                   % (2 * npos + 1, fmt, ' and '.join(["is_seg(emitted(_p)[%d], 'value') and instr(emitted(_p)[%d], 'OUT', IoOp.REGISTER, Register.RESULT)" % (2 * i, 2 * i + 1)
                                                       for i in range(npos)]) or 'True'))
+
+
+# ---- named printf fields: a variable is found under its exact (case-sensitive) name, also when the name resembles an
+#      internal register (Hue, power, result, name, pc ...); the ten documented register names give the register
+c = contract(VI, 'VmIo._printf', serves=['C19', 'C16'], unwrap=1, name="VmIo._printf['{Hue}|{power}|{result}|{hue}', variables named like registers]")
+def _setup(b, case):
+    from pyvc.values import Opaque
+    m = lib.machine(b, 'LOGICAL', lib.light_set_with(b, {}))
+    io = m.attrs['_vm_io']
+    reg = lib.sym_regs(b, m, 'real', ('hue',))
+    vs = {n: b.sym('int', 'var_' + n) for n in ('Hue', 'power', 'result')}
+    m.attrs['_call_stack'].attrs['_top'].attrs['vars'].d.update(vs)
+    calls = b.ghost('Calls', PyList())
+    out = Opaque('output', {'out': lambda I_, o, a, k: calls.items.append((o, 'out', tuple(a)))})
+    out.native = {'kind': 'generic'}
+    inst = b.new(('bardolph.vm.instruction', 'Instruction'), b.enum('bardolph.vm.vm_codes', 'OpCode', 'OUT'),
+                 b.enum('bardolph.vm.vm_codes', 'IoOp', 'PRINTF'), '{Hue}|{power}|{result}|{hue}')
+    return {'self': io, 'inst': inst, 'output': out, '_reg': reg, '_Hue': vs['Hue'], '_power': vs['power'], '_result': vs['result']}
+c.setup(_setup)
+c.ensures('variables-by-their-exact-names-registers-by-the-documented-ones',
+          "len(ghost('Calls')) == 1 and ghost('Calls')[0][2][0] == '{Hue}|{power}|{result}|{hue}'.format(Hue=_Hue, power=_power, result=_result, hue=_reg.hue)")
